@@ -1103,15 +1103,14 @@ Qed.
     Between DecRef of the old parent and the assignment the ledger is in debt: a panic there is unsafe. *)
 Definition rename_fn (target : refid) (tnode : nodeid) (tfile : handle) (new : string) (r : refid) : M unit :=
   (fr <- the_ref r ;;
+   modify (put_ref r (set_parent fr (Some target))) ;;
+   incref target ;;
+   add_child tnode r new ;;
+   backend (mkCall MRenamed (fr_file fr) [new] (Some tfile) [] []) ;;
    match fr_parent fr with
    | None => panic
    | Some p => dec_ref_ p
    end ;;
-   fr' <- the_ref r ;;
-   modify (put_ref r (set_parent fr' (Some target))) ;;
-   incref target ;;
-   add_child tnode r new ;;
-   backend (mkCall MRenamed (fr_file fr) [new] (Some tfile) [] []) ;;
    ret tt)%m.
 
 Lemma next_ref_mono_dec_ref_ r w o w' : dec_ref_ r w = (o, w') -> st_next_ref (w_st w) <= st_next_ref (w_st w').
@@ -1161,76 +1160,55 @@ Proof.
 Qed.
 
 Lemma led_rename_fn K target tnode tfile new r :
-  (1 <= K r)%Z -> (1 <= K target)%Z -> led K (rename_fn target tnode tfile new r) d0 (fun _ => d0) false.
+  (1 <= K r)%Z -> (1 <= K target)%Z -> led K (rename_fn target tnode tfile new r) d0 (fun _ => d0) true.
 Proof.
   intros HKr HKt F w o w' HF HK HL E.
   assert (HL0 : L F (w_st w)) by (eapply L_ext; [|exact HL]; intros x; unfold dadd, d0; lia).
   unfold rename_fn in E. unfold bind at 1 in E. cbn [the_ref gets] in E.
-  set (s := w_st w) in *. set (fr := get_ref s r) in *.
-  assert (Hrlive : (1 <= refsZ s r)%Z).
-  { destruct HL0 as [L1 _]. specialize (L1 r). pose proof (tcount_nonneg r (st_fids s)). pose proof (rcount_nonneg r (st_refs s)). specialize (HK r). lia. }
-  assert (Htlive : (1 <= refsZ s target)%Z).
-  { destruct HL0 as [L1 _]. specialize (L1 target). pose proof (tcount_nonneg target (st_fids s)). pose proof (rcount_nonneg target (st_refs s)). specialize (HK target). lia. }
+  assert (Hrlive : (1 <= refsZ (w_st w) r)%Z).
+  { destruct HL0 as [L1 _]. specialize (L1 r). pose proof (tcount_nonneg r (st_fids (w_st w))). pose proof (rcount_nonneg r (st_refs (w_st w))). specialize (HK r). lia. }
+  assert (Htlive : (1 <= refsZ (w_st w) target)%Z).
+  { destruct HL0 as [L1 _]. specialize (L1 target). pose proof (tcount_nonneg target (st_fids (w_st w))). pose proof (rcount_nonneg target (st_refs (w_st w))). specialize (HK target). lia. }
   pose proof (L_live_below _ _ _ HL0 Htlive) as Htb.
-  unfold bind at 1 in E.
-  destruct (fr_parent fr) as [p|] eqn:Ep; [|inversion E; subst; split; [exact (N.le_refl _)|discriminate]].
-  assert (Hlinks : forall x, st_next_ref s <= x -> links s r x = 0%Z) by (apply (live_parent_below F); auto).
-  assert (Hpb : p < st_next_ref s).
-  { destruct (N.lt_ge_cases p (st_next_ref s)) as [|Hge]; [assumption|]. specialize (Hlinks p Hge). unfold links, dadd in Hlinks.
-    change (get_ref s r) with fr in Hlinks. rewrite Ep in Hlinks. cbn [dopt] in Hlinks. rewrite d1_same in Hlinks.
-    pose proof (dopt_nonneg (fr_xof fr) p). lia. }
-  destruct (dec_ref_ p w) as [[u|] w1] eqn:Ed.
-  2:{ inversion E; subst. split; [eapply next_ref_mono_dec_ref_; eauto|discriminate]. }
-  destruct (dec_ref__core p _ w (Ok u) w1 HL0 Hpb Ed) as [HL1 Ho1].
-  destruct Ho1 as (Og & Of & On & Om). fold s in Og, Of, On.
-  set (s1 := w_st w1) in *.
-  unfold bind at 1 in E. cbn [the_ref gets] in E. fold s1 in E.
-  assert (Gr1 : get_ref s1 r = set_refs fr (refsZ s1 r)) by (rewrite Og; reflexivity).
-  assert (Hrlive1 : (1 <= refsZ s1 r)%Z).
-  { destruct (N.eqb_spec p r) as [Epr|Hne].
-    - (* its own parent: two references at least, the drop does not reach zero *)
-      subst p.
-      assert (H2 : (2 <= refsZ s r)%Z).
-      { destruct HL0 as [L1 _]. specialize (L1 r). pose proof (rcount_ge_claims s r r) as Hc. rewrite claims_live in Hc by lia.
-        unfold links, dadd in Hc. change (get_ref s r) with fr in Hc. rewrite Ep in Hc. cbn [dopt] in Hc. rewrite d1_same in Hc.
-        pose proof (dopt_nonneg (fr_xof fr) r). pose proof (tcount_nonneg r (st_fids s)). specialize (HK r). lia. }
-      rewrite dec_ref__nocascade in Ed by (fold s; lia). inversion Ed; subst. unfold s1; cbn [w_st]. fold s.
-      unfold set_refs_of. rewrite refsZ_put_ref, N.eqb_refl. cbn. fold (refsZ s r). lia.
-    - destruct HL1 as [L1 _]. specialize (L1 r). fold s1 in L1. unfold dsub in L1. rewrite d1_other in L1 by assumption.
-      pose proof (tcount_nonneg r (st_fids s1)). pose proof (rcount_nonneg r (st_refs s1)). specialize (HK r). lia. }
-  assert (Hpar1 : fr_parent (get_ref s1 r) = Some p) by (rewrite Gr1; exact Ep).
+  assert (Hlinks : forall x, st_next_ref (w_st w) <= x -> links (w_st w) r x = 0%Z) by (apply (live_parent_below F); auto).
+  assert (Hlb : forall x, st_next_ref (w_st w) <= x -> dopt (fr_parent (get_ref (w_st w) r)) x = 0%Z).
+  { intros x Hx. specialize (Hlinks x Hx). unfold links, dadd in Hlinks.
+    pose proof (dopt_nonneg (fr_parent (get_ref (w_st w) r)) x). pose proof (dopt_nonneg (fr_xof (get_ref (w_st w) r)) x). lia. }
+  pose proof (L_set_parent' _ (w_st w) r target HL0 Hrlive Htb Hlb) as HL1.
+  unfold bind at 1 in E. cbn [modify w_st w_tape w_log] in E.
+  match type of HL1 with L _ ?S1 => set (s1 := S1) in * end.
   assert (Htlive1 : (1 <= refsZ s1 target)%Z).
-  { destruct HL1 as [L1 _]. specialize (L1 target). fold s1 in L1. unfold dsub in L1.
-    pose proof (tcount_nonneg target (st_fids s1)). specialize (HK target).
-    destruct (N.eqb_spec p target) as [->|Hne].
-    - pose proof (rcount_ge_claims s1 r target) as Hc. rewrite claims_live in Hc by lia.
-      unfold links, dadd in Hc. rewrite Hpar1 in Hc. cbn [dopt] in Hc. rewrite d1_same in Hc, L1.
-      pose proof (dopt_nonneg (fr_xof (get_ref s1 r)) target). lia.
-    - rewrite d1_other in L1 by assumption. pose proof (rcount_nonneg target (st_refs s1)). lia. }
-  unfold bind at 1 in E. cbn [modify w_st w_tape w_log] in E. fold s1 in E.
-  assert (Hlb1 : forall x, st_next_ref s1 <= x -> dopt (fr_parent (get_ref s1 r)) x = 0%Z).
-  { intros x Hx. rewrite Hpar1. cbn [dopt]. apply d1_other. rewrite On in Hx. lia. }
-  assert (Htb1 : target < st_next_ref s1) by (rewrite On; exact Htb).
-  pose proof (L_set_parent' _ s1 r target HL1 Hrlive1 Htb1 Hlb1) as HL2. rewrite Hpar1 in HL2. cbn [dopt] in HL2.
-  set (s2 := put_ref r (set_parent (get_ref s1 r) (Some target)) s1) in *.
+  { unfold s1. rewrite refsZ_put_ref. destruct (target =? r) eqn:Et; [apply N.eqb_eq in Et; subst; cbn; exact Hrlive|exact Htlive]. }
   unfold bind at 1 in E. rewrite incref_run in E. cbn [w_st w_tape w_log] in E.
-  assert (Htlive2 : (1 <= refsZ s2 target)%Z).
-  { unfold s2. rewrite refsZ_put_ref. destruct (target =? r) eqn:Et; [apply N.eqb_eq in Et; subst; cbn; fold (refsZ s1 r); exact Hrlive1|exact Htlive1]. }
-  pose proof (L_incref_live _ _ _ HL2 Htlive2) as HL3.
-  set (s3 := set_refs_of s2 target (refsZ s2 target + 1)) in *.
-  assert (HL3' : L F s3) by (eapply L_ext; [|exact HL3]; intros x; unfold dsub, dadd; lia).
-  assert (N3 : st_next_ref s3 = st_next_ref s) by (unfold s3, s2, set_refs_of; cbn; exact On).
+  pose proof (L_incref_live _ _ _ HL1 Htlive1) as HL2.
+  match type of HL2 with L _ ?S2 => set (s2 := S2) in * end.
+  assert (HL2' : L (dadd (dopt (fr_parent (get_ref (w_st w) r))) F) s2) by (eapply L_ext; [|exact HL2]; intros x; unfold dsub, dadd; lia).
+  assert (N2 : st_next_ref s2 = st_next_ref (w_st w)) by reflexivity.
+  assert (Drop : forall s3, st_refs s3 = st_refs s2 -> st_fids s3 = st_fids s2 -> st_next_ref s3 = st_next_ref s2 -> L F s3).
+  { intros s3 A B C. apply (L_keeps _ s2); auto. eapply L_drop_own; [intros x; apply dopt_nonneg|exact HF|exact HL2']. }
   unfold bind at 1 in E.
   match type of E with context [add_child ?a ?b ?c ?W] => destruct (add_child a b c W) as [[u1|] w4] eqn:E4;
     destruct (keeps_add_child _ _ _ _ _ _ E4) as (R4 & T4 & N4) end; cbn [w_st] in R4, T4, N4.
-  2:{ inversion E; subst. split; [rewrite N4, N3; unfold s; lia|discriminate]. }
+  2:{ inversion E; subst. split; [rewrite N4; exact (N.le_refl _)|intros _; apply Drop; assumption]. }
   unfold bind at 1 in E.
   match type of E with context [backend ?c ?W] => destruct (backend c W) as [[u2|] w5] eqn:E5;
     destruct (keeps_backend _ _ _ _ E5) as (R5 & T5 & N5) end.
-  2:{ inversion E; subst. split; [rewrite N5, N4, N3; unfold s; lia|discriminate]. }
-  cbn [ret] in E. inversion E; subst. split; [rewrite N5, N4, N3; unfold s; lia|].
-  apply (L_keeps _ (w_st w4)); [exact R5|exact T5|exact N5|]. apply (L_keeps _ s3); [exact R4|exact T4|exact N4|].
-  eapply L_ext; [|exact HL3']. intros x; unfold dadd, d0; lia.
+  2:{ inversion E; subst. split; [rewrite N5, N4; exact (N.le_refl _)|intros _; apply Drop; [rewrite R5; exact R4|rewrite T5; exact T4|rewrite N5; exact N4]]. }
+  assert (HL5 : L (dadd (dopt (fr_parent (get_ref (w_st w) r))) F) (w_st w5)).
+  { apply (L_keeps _ (w_st w4)); auto. apply (L_keeps _ s2); auto. }
+  unfold bind at 1 in E.
+  destruct (fr_parent (get_ref (w_st w) r)) as [p|] eqn:Ep.
+  - assert (Hpb : p < st_next_ref (w_st w5)).
+    { rewrite N5, N4. change (p < st_next_ref (w_st w)). destruct (N.lt_ge_cases p (st_next_ref (w_st w))) as [|Hge]; [assumption|].
+      specialize (Hlb p Hge). cbn [dopt] in Hlb. rewrite d1_same in Hlb. lia. }
+    destruct (dec_ref_ p w5) as [od w6] eqn:Ed.
+    destruct (dec_ref__core p _ w5 od w6 HL5 Hpb Ed) as [HL6 (_ & _ & En & _)].
+    assert (HL6' : L F (w_st w6)) by (eapply L_ext; [|exact HL6]; intros x; unfold dsub, dadd, dopt; lia).
+    destruct od; inversion E; subst; (split; [rewrite En, N5, N4; exact (N.le_refl _)|]).
+    + eapply L_ext; [|exact HL6']. intros x; unfold dadd, d0; lia.
+    + intros _. exact HL6'.
+  - inversion E; subst. split; [rewrite N5, N4; exact (N.le_refl _)|]. intros _.
+    eapply L_ext; [|exact HL5]. intros x; unfold dadd, dopt, d0; lia.
 Qed.
 
 Lemma dle_refl K : dle K K. Proof. intros x; lia. Qed.
@@ -1243,15 +1221,15 @@ Proof. intros Ha Hb x; unfold dadd; specialize (Ha x); specialize (Hb x); lia. Q
 Lemma led_rwn_loop {A} n (f : refid -> M unit) (k : M A) postk :
   (forall a, nonneg (postk a)) ->
   forall rs K, nonneg K ->
-  (forall K' r, nonneg K' -> dle K K' -> (1 <= K' r)%Z -> led K' (f r) d0 (fun _ => d0) false) ->
-  (forall K', nonneg K' -> dle K K' -> led K' k d0 postk false) ->
-  led K (rwn_loop n (Some f) rs k) d0 postk false.
+  (forall K' r, nonneg K' -> dle K K' -> (1 <= K' r)%Z -> led K' (f r) d0 (fun _ => d0) true) ->
+  (forall K', nonneg K' -> dle K K' -> led K' k d0 postk true) ->
+  led K (rwn_loop n (Some f) rs k) d0 postk true.
 Proof.
   intros Hpk rs. induction rs as [|r rest IH]; intros K HKn Hf Hk; cbn [rwn_loop]; [apply Hk; [exact HKn|apply dle_refl]|].
   intros F w o w' HF HK HL E.
   unfold bind at 1 in E.
   destruct (remove_child n r w) as [[u|] w1] eqn:E1; destruct (keeps_remove_child _ _ _ _ _ E1) as (R1 & T1 & N1).
-  2:{ inversion E; subst. split; [lia|discriminate]. }
+  2:{ inversion E; subst. split; [lia|]. intros _. apply (L_keeps _ (w_st w)); auto. }
   assert (HL1 : L (dadd d0 F) (w_st w1)) by (apply (L_keeps _ (w_st w)); auto).
   unfold bind at 1 in E. cbn [the_ref gets] in E.
   destruct (0 <? fr_refs (get_ref (w_st w1) r))%Z eqn:Elive.
@@ -1259,16 +1237,16 @@ Proof.
     assert (HL2 : L (dadd (dadd (d1 r) d0) F) (set_refs_of (w_st w1) r (refsZ (w_st w1) r + 1))).
     { eapply L_ext; [|apply (L_incref_live _ _ r HL1); unfold refsZ; lia]. intros x; unfold dadd, d0; lia. }
     assert (HKn' : nonneg (dadd K (d1 r))) by (apply nonneg_add; [exact HKn|apply nonneg_d1]).
-    assert (Hbody : led (dadd K (d1 r)) (f r ;; rwn_loop n (Some f) rest k)%m d0 postk false).
-    { change false with (false && false). eapply led_bind0.
+    assert (Hbody : led (dadd K (d1 r)) (f r ;; rwn_loop n (Some f) rest k)%m d0 postk true).
+    { change true with (true && true). eapply led_bind0.
       - apply Hf; [exact HKn'|apply dle_add|unfold dadd; rewrite d1_same; specialize (HKn r); lia].
       - intros u0. cbn beta. apply IH; [exact HKn'| |].
         + intros K' r' Hn' Hle Hr'. apply Hf; auto. eapply dle_trans; [apply dle_add|exact Hle].
         + intros K' Hn' Hle. apply Hk; auto. eapply dle_trans; [apply dle_add|exact Hle]. }
-    pose proof (led_with_defer K r _ d0 postk false Hbody Hpk) as Hwd.
+    pose proof (led_with_defer K r _ d0 postk true Hbody Hpk) as Hwd.
     match type of E with with_defer _ _ ?W = _ => destruct (Hwd F W o w' HF HK HL2 E) as [N2 R2] end.
     split; [cbn in N2; unfold set_refs_of in N2; cbn in N2; lia|exact R2].
-  - assert (Hrest : led K (rwn_loop n (Some f) rest k) d0 postk false) by (apply IH; auto).
+  - assert (Hrest : led K (rwn_loop n (Some f) rest k) d0 postk true) by (apply IH; auto).
     destruct (Hrest F w1 o w' HF HK HL1 E) as [N2 R2]. split; [lia|exact R2].
 Qed.
 
@@ -1298,19 +1276,19 @@ Lemma rename_child_to_eq f old target new :
 Proof. reflexivity. Qed.
 
 Lemma led_rename_child_to K f old target new :
-  nonneg K -> (1 <= K target)%Z -> led K (rename_child_to f old target new) d0 (fun _ => d0) false.
+  nonneg K -> (1 <= K target)%Z -> led K (rename_child_to f old target new) d0 (fun _ => d0) true.
 Proof.
   intros HKn HKt. rewrite rename_child_to_eq.
   apply led_nbind; [apply neutral_the_ref|intros ffr].
   apply led_nbind; [apply neutral_the_ref|intros tfr].
   apply led_nbind; [apply neutral_mark_child_deleted|intros _].
-  change false with (false && false). eapply led_bind0.
+  change true with (true && true). eapply led_bind0.
   - unfold remove_with_name. apply led_nbind; [apply neutral_the_node|intros p].
     apply (led_rwn_loop (A := option nodeid)); [intros a; apply nonneg_d0| exact HKn | |].
     + intros K' r Hn' Hle Hr. apply led_rename_fn; [exact Hr|specialize (Hle target); lia].
-    + intros K' Hn' Hle. apply led_unsafe. apply led_neutral0. apply neutral_rwn_tail.
-  - intros o. destruct o as [c|]; [|apply led_unsafe, led_ret].
-    apply led_unsafe. apply led_neutral0.
+    + intros K' Hn' Hle. apply led_neutral0. apply neutral_rwn_tail.
+  - intros o. destruct o as [c|]; [|apply led_ret].
+    apply led_neutral0.
     apply neutral_bind; [apply neutral_add_path_node_for|intros _].
     apply neutral_bind; [apply neutral_gets|intros fuel; apply neutral_notify_name_change].
 Qed.
@@ -1388,7 +1366,7 @@ Proof.
 Qed.
 
 Lemma led_body K c m r t :
-  nonneg K -> (1 <= K r)%Z -> (1 <= K t)%Z -> led K (body c m r t) d0 (fun _ => d0) (negb (is_rename m)).
+  nonneg K -> (1 <= K r)%Z -> (1 <= K t)%Z -> led K (body c m r t) d0 (fun _ => d0) true.
 Proof.
   intros HKn HKr HKt F w o w' HF HK HL E.
   unfold body in E. unfold bind at 1 in E. cbn [the_ref gets] in E. unfold bind at 1 in E. cbn [the_ref gets] in E.
@@ -1417,7 +1395,7 @@ Proof.
       change true with (true && true). eapply led_bind0; [apply led_insert_fid_live; unfold dadd; rewrite d1_same; specialize (HKn nr); lia|intros u0; apply led_ret]. }
     assert (R1' : L (dadd (dadd (d1 nr) d0) F) (w_st w1)) by (eapply L_ext; [|exact R1]; intros x; unfold dadd, d0; lia).
     destruct (Hwd F w1 o w' HF HK R1' Ew) as [N2 R2]. split; [first [exact (N.le_refl _)|lia]|exact R2]. }
-  destruct m; cbn [is_rename negb]; try (apply Neu in E; [exact E|solve [unfold fail; neu]]).
+  destruct m; try (apply Neu in E; [exact E|solve [unfold fail; neu]]).
   - (* Twalk *) exact (Walk false names nf (fun q _ => ok p9_msgRwalk q) E).
   - (* Twalkgetattr *) exact (Walk true names nf (fun q a => ok p9_msgRwalkgetattr (q ++ [bv_mode a])%list) E).
   - (* Tlopen *)
@@ -1475,35 +1453,35 @@ Proof.
     unfold bind at 1 in E.
     match type of E with context [backend ?cl w] => destruct (backend cl w) as [[[v e]|] w1] eqn:E1;
       destruct (keeps_backend _ _ _ _ E1) as (R1 & T1 & N1) end.
-    2:{ inversion E; subst. split; [first [exact (N.le_refl _)|lia]|discriminate]. }
+    2:{ inversion E; subst. split; [first [exact (N.le_refl _)|lia]|]. intros _. apply (L_keeps _ (w_st w)); auto. }
     assert (HL1 : L (dadd d0 F) (w_st w1)) by (apply (L_keeps _ (w_st w)); auto).
     destruct (is_err e); [inversion E; subst; split; [first [exact (N.le_refl _)|lia]|exact HL1]|].
     unfold bind at 1 in E.
     destruct (rename_child_to r oname t nname w1) as [[u|] w2] eqn:E2;
       destruct (led_rename_child_to K r oname t nname HKn HKt F w1 _ _ HF HK HL1 E2) as [N2 R2].
-    + cbn [ret] in E. inversion E; subst. split; [first [exact (N.le_refl _)|lia]|exact R2].
-    + inversion E; subst. split; [first [exact (N.le_refl _)|lia]|discriminate].
+    + cbn [ret] in E. inversion E; subst. split; [lia|exact R2].
+    + inversion E; subst. split; [lia|exact R2].
   - (* Trename *)
-    destruct (fr_parent fr) as [p|]; [|inversion E; subst; split; [first [exact (N.le_refl _)|lia]|discriminate]].
+    destruct (fr_parent fr) as [p|]; [|inversion E; subst; split; [first [exact (N.le_refl _)|lia]|intros _; exact HL0]].
     unfold bind at 1 in E. cbn [the_ref gets] in E. unfold bind at 1 in E. cbn [gets] in E.
-    destruct (is_deleted (w_st w) p); [inversion E; subst; split; [first [exact (N.le_refl _)|lia]|discriminate]|].
+    destruct (is_deleted (w_st w) p); [inversion E; subst; split; [first [exact (N.le_refl _)|lia]|intros _; exact HL0]|].
     unfold bind at 1 in E.
     match type of E with context [name_for ?a ?b w] => destruct (name_for a b w) as [[old|] w0] eqn:E0;
       destruct (keeps_name_for _ _ _ _ _ E0) as (R0 & T0 & N0) end.
-    2:{ inversion E; subst. split; [first [exact (N.le_refl _)|lia]|discriminate]. }
+    2:{ inversion E; subst. split; [first [exact (N.le_refl _)|lia]|]. intros _. apply (L_keeps _ (w_st w)); auto. }
     assert (HL00 : L (dadd d0 F) (w_st w0)) by (apply (L_keeps _ (w_st w)); auto).
     destruct (_ && _); [inversion E; subst; split; [first [exact (N.le_refl _)|lia]|exact HL00]|].
     unfold bind at 1 in E.
     match type of E with context [backend ?cl w0] => destruct (backend cl w0) as [[[v e]|] w1] eqn:E1;
       destruct (keeps_backend _ _ _ _ E1) as (R1 & T1 & N1) end.
-    2:{ inversion E; subst. split; [first [exact (N.le_refl _)|lia]|discriminate]. }
+    2:{ inversion E; subst. split; [first [exact (N.le_refl _)|lia]|]. intros _. apply (L_keeps _ (w_st w0)); auto. }
     assert (HL1 : L (dadd d0 F) (w_st w1)) by (apply (L_keeps _ (w_st w0)); auto).
     destruct (is_err e); [inversion E; subst; split; [first [exact (N.le_refl _)|lia]|exact HL1]|].
     unfold bind at 1 in E.
     destruct (rename_child_to p old t name w1) as [[u|] w2] eqn:E2;
       destruct (led_rename_child_to K p old t name HKn HKt F w1 _ _ HF HK HL1 E2) as [N2 R2].
-    + cbn [ret] in E. inversion E; subst. split; [first [exact (N.le_refl _)|lia]|exact R2].
-    + inversion E; subst. split; [first [exact (N.le_refl _)|lia]|discriminate].
+    + cbn [ret] in E. inversion E; subst. split; [lia|exact R2].
+    + inversion E; subst. split; [lia|exact R2].
   - (* Twrite *)
     destruct (fr_xop fr =? p9_xattrNone); [apply Neu in E; [exact E|neu]|].
     unfold bind in E. cbn [modify ret] in E. inversion E; subst; cbn [w_st]. split; [cbn; lia|].
@@ -1577,7 +1555,7 @@ Lemma led_inner K c m k r t :
               | Some GP => panic
               | None => body c m r t
               end ;;
-         post c m x)%m d0 (fun _ => d0) (negb (is_rename m)).
+         post c m x)%m d0 (fun _ => d0) true.
 Proof.
   intros HKn HKr HKt.
   apply led_nbind; [apply neutral_gets|intros ms].
@@ -1585,26 +1563,26 @@ Proof.
   apply led_nbind; [apply neutral_gets|intros tv].
   eapply led_bind_t; [|intros x; apply led_post].
   destruct (first_failing _ _ _ _ _) as [[e|]|].
-  - eapply led_weaken_safe; [apply led_ret|reflexivity].
-  - eapply led_weaken_safe; [apply led_neutral0, neutral_panic|reflexivity].
+  - apply led_ret.
+  - apply led_neutral0, neutral_panic.
   - apply led_body; assumption.
 Qed.
 
-Lemma led_guarded K c m k : nonneg K -> led K (guarded c m k) d0 (fun _ => d0) (negb (is_rename m)).
+Lemma led_guarded K c m k : nonneg K -> led K (guarded c m k) d0 (fun _ => d0) true.
 Proof.
   intros HKn. unfold guarded, fail.
-  destruct (negb (forallb safe_nameb (names_of m))); [eapply led_weaken_safe; [apply led_ret|reflexivity]|].
+  destruct (negb (forallb safe_nameb (names_of m))); [apply led_ret|].
   eapply led_tbind; [apply led_lookup_fid|intros o].
-  destruct o as [r|]; [|eapply led_weaken_safe; [apply led_ret|reflexivity]].
+  destruct o as [r|]; [|apply led_ret].
   cbn [dopt].
-  eapply led_conseq; [apply (led_with_defer K r _ d0 (fun _ => d0) (negb (is_rename m)))| | |auto].
+  eapply led_conseq; [apply (led_with_defer K r _ d0 (fun _ => d0) true)| | |auto].
   - assert (HKn1 : nonneg (dadd K (d1 r))) by (apply nonneg_add; [exact HKn|apply nonneg_d1]).
     assert (HK1 : (1 <= dadd K (d1 r) r)%Z) by (unfold dadd; rewrite d1_same; specialize (HKn r); lia).
     destruct (fid2_of m) as [f2|]; [|apply led_inner; assumption].
     eapply led_tbind; [apply led_lookup_fid|intros o2].
-    destruct o2 as [t|]; [|eapply led_weaken_safe; [apply led_ret|reflexivity]].
+    destruct o2 as [t|]; [|apply led_ret].
     cbn [dopt].
-    eapply led_conseq; [apply (led_with_defer (dadd K (d1 r)) t _ d0 (fun _ => d0) (negb (is_rename m)))| | |auto].
+    eapply led_conseq; [apply (led_with_defer (dadd K (d1 r)) t _ d0 (fun _ => d0) true)| | |auto].
     + apply led_inner.
       * apply nonneg_add; [exact HKn1|apply nonneg_d1].
       * unfold dadd in *. pose proof (ind_nonneg (t =? r)). unfold d1 at 2. lia.
@@ -1713,12 +1691,11 @@ Proof.
     destruct (is_err derr); [apply led_ret|]. destruct cerr; apply led_ret.
 Qed.
 
-Lemma led_handler c m : led d0 (handler c m) d0 (fun _ => d0) (negb (is_rename m)).
+Lemma led_handler c m : led d0 (handler c m) d0 (fun _ => d0) true.
 Proof.
-  assert (T : forall (mm : M reply), led d0 mm d0 (fun _ => d0) true -> led d0 mm d0 (fun _ => d0) (negb (is_rename m))).
-  { intros mm H. eapply led_weaken_safe; [exact H|reflexivity]. }
+  assert (T : forall (mm : M reply), led d0 mm d0 (fun _ => d0) true -> led d0 mm d0 (fun _ => d0) true) by auto.
   assert (G : forall k, kind_of m = Some k ->
-            led d0 (x <- guarded c m k ;; ret (match x with inl e => RErr (extract_errno e) | inr r => r end))%m d0 (fun _ => d0) (negb (is_rename m))).
+            led d0 (x <- guarded c m k ;; ret (match x with inl e => RErr (extract_errno e) | inr r => r end))%m d0 (fun _ => d0) true).
   { intros k _. eapply led_bind_t; [apply led_guarded, nonneg_d0|intros x; apply led_ret]. }
   unfold handler.
   destruct m; cbn [kind_of]; try (apply T; apply led_ret); try (apply (G _ eq_refl)).
@@ -1741,18 +1718,14 @@ Proof.
   intros [L1 _] E. specialize (L1 r). pose proof (tcount_tlookup _ _ _ E). pose proof (rcount_nonneg r (st_refs s)). unfold d0 in L1. lia.
 Qed.
 
-(** one request keeps the ledger -- except when a rename was cut short by a panic (then the old
-    parent has lost a reference that the moved fidRef still claims: see the note in Properties/C04.v) *)
-Theorem ledger_step s c m tape :
-  Ledger s ->
-  (is_rename m = true -> snd (fst (fst (step s c m tape))) <> RErr linux_EFAULT) ->
-  Ledger (fst (fst (fst (step s c m tape)))).
+(** one request keeps the ledger, whatever the backend answers (errors and panics at any call) *)
+Theorem ledger_step s c m tape : Ledger s -> Ledger (fst (fst (fst (step s c m tape)))).
 Proof.
-  intros HL Hr. unfold step in *.
+  intros HL. unfold step in *.
   destruct (handler c m (mkW s tape [])) as [o w] eqn:E.
   assert (HL' : L (dadd d0 d0) (w_st (mkW s tape []))) by (eapply L_ext; [|exact HL]; intros x; unfold dadd, d0; lia).
   destruct (led_handler c m d0 _ o w nonneg_d0 (dle_refl d0) HL' E) as [_ R].
   destruct o as [r|]; cbn.
   - eapply L_ext; [|exact R]. intros x; unfold dadd, d0; lia.
-  - destruct (is_rename m) eqn:Em; [exfalso; apply Hr; reflexivity|]. apply R. reflexivity.
+  - apply R. reflexivity.
 Qed.
